@@ -123,7 +123,7 @@ func buildStream(c *mutCase) ([]byte, int, error) {
 }
 
 func watchdogFor(entry string) int {
-	if strings.HasPrefix(entry, "transport") || entry == "describegroups" {
+	if isTransportEntry(entry) {
 		return 6000
 	}
 	return 2000
@@ -188,7 +188,7 @@ func confirm(c *mutCase, stream []byte, first wres) (wres, bool) {
 	p := newPool(1)
 	defer p.Close()
 	wd := 10000
-	if strings.HasPrefix(c.Entry, "transport") || c.Entry == "describegroups" {
+	if isTransportEntry(c.Entry) {
 		wd = 20000
 	}
 	r, err := p.Do(wreq{Entry: c.Entry, Key: c.Key, Version: c.Version, StreamHex: hex.EncodeToString(stream), WatchdogMs: wd})
